@@ -99,6 +99,8 @@ class Program:
     def __init__(self, mir_path, src_root):
         self.src_root = src_root
         self.fns = mir.parse_file(mir_path)
+        self.mir_path = mir_path
+        self._derive_fields = {}
         self.by_name = {}
         self.by_last = {}
         self.promoted = {}
@@ -176,6 +178,32 @@ class Program:
         raise ValueError('unbalanced braces')
 
     # ------------------------------------------------------------------
+    def derive_field_index(self, head, fn_name):
+        """serde-derive's field identifier enum `__Field { __field0, .., __fieldN, __ignore }` has no source text: the
+        variant index is the number in the name; `__ignore` follows the last field named in the same derive expansion
+        (the functions that share the `<impl at ..>` span of the function the aggregate occurs in)"""
+        m = re.match(r'^(?:.*::)?__Field::(__field(\d+)|__ignore)$', head)
+        if not m:
+            return None
+        if m.group(2) is not None:
+            return int(m.group(2))
+        sp = re.search(r'<impl at [^>]*>', fn_name)
+        if not sp:
+            return None
+        prefix = sp.group(0)
+        if prefix not in self._derive_fields:
+            ns = []
+            for f in self.fns:
+                if prefix in f.name:
+                    ns += [int(x) for x in re.findall(r'__Field::__field(\d+)', f.text if hasattr(f, 'text') else '')]
+            if not ns:
+                text = open(self.mir_path).read()
+                for blk in text.split('\nfn ')[1:]:
+                    if prefix in blk.split('\n', 1)[0]:
+                        ns += [int(x) for x in re.findall(r'__Field::__field(\d+)', blk)]
+            self._derive_fields[prefix] = (max(ns) + 1) if ns else None
+        return self._derive_fields[prefix]
+
     def enum_variants(self, ty):
         """ty: type path text (possibly with generics)"""
         t = strip_generics(ty).strip()
